@@ -166,13 +166,16 @@ def gen_portions(ctx, k):
 
 # ---------------------------------------------------------------- sources
 
-def gen_source(ctx, asset, depth, need):
-    """returns (text, resolved)"""
+def gen_source(ctx, asset, depth, need, safe=False):
+    """returns (text, resolved); safe: a source acceptable under send-all (no @world, unbounded
+    overdraft or allotment outside a cap)"""
     r = ctx.rng
     x = r.random()
+    if safe and x >= 0.85:
+        x = r.random() * 0.85
     if depth <= 0 or x < 0.45:
         # account leaf
-        if ctx.chance("world", 0.12):
+        if not safe and ctx.chance("world", 0.12):
             txt, name = "@world", "world"
             if ctx.chance("world_var", 0.2):
                 txt = ctx.declare("account", ('account', 'world'), 'world')
@@ -180,6 +183,8 @@ def gen_source(ctx, asset, depth, need):
         else:
             txt, name = gen_account(ctx, ACCOUNTS)
         y = r.random()
+        if safe and y < ctx.p.get("overdraft_unbounded", 0.08):
+            y = 1.0
         if y < ctx.p.get("overdraft_unbounded", 0.08):
             ctx.features.add("unbounded-overdraft")
             return "%s allowing unbounded overdraft" % txt, ('unb', name)
@@ -192,7 +197,7 @@ def gen_source(ctx, asset, depth, need):
         return txt, ('acct', name, 0)
     if x < 0.7:
         n = r.choice([0, 1, 2, 2, 3, 3])
-        subs = [gen_source(ctx, asset, depth - 1, need) for _ in range(n)]
+        subs = [gen_source(ctx, asset, depth - 1, need, safe) for _ in range(n)]
         ctx.features.add("src-inorder")
         return "{ " + " ".join(t for t, _ in subs) + " }", ('inorder', [s for _, s in subs])
     if x < 0.85:
@@ -270,7 +275,7 @@ def gen_statement(ctx):
         return "send %s (\n  source = %s\n  destination = %s\n)" % (gen_monetary(ctx, asset, n), st, dt), \
             ('send', asset, n, rs, rd)
     if x < ctx.p.get("send", 0.55) + ctx.p.get("sendall", 0.2):
-        st, rs = gen_source(ctx, asset, ctx.p.get("depth", 3), None)
+        st, rs = gen_source(ctx, asset, ctx.p.get("depth", 3), None, safe=ctx.chance("sendall_safe", 0.5))
         dt, rd = gen_dest(ctx, asset, ctx.p.get("ddepth", 2), None)
         ctx.features.add("sendall")
         return "send [%s *] (\n  source = %s\n  destination = %s\n)" % (gen_asset_text(ctx, asset), st, dt), \
